@@ -31,8 +31,8 @@ WFAM = ["fixed", "fixed", "auto_po2", "po2", "po2_le1", "binary", "ternary"]
 
 
 def thresholds(tier):
-  return {"models": 40, "layers_checked": 50, "preactivation_values_checked": 5000, "weight_values_checked": 500,
-          "activation_values_checked": 1000, "estimator_layers_checked": 30, "near_worst_case_cases": 10,
+  return {"models": 40, "layers_checked": 50, "preactivation_values_checked": 900, "weight_values_checked": 190,
+          "activation_values_checked": 120, "estimator_layers_checked": 100, "near_worst_case_cases": 20,
           "distinct_nontrivial": 10}
 
 
@@ -107,7 +107,7 @@ def cases(tier, seed):
     for j, l in enumerate(layers):
       l["in"] = [j - 1]
     out.append({"spec": {"input": shape, "layers": layers}, "src": src,
-                "pattern": rnd.choice(["random", "random", "saturated_pos", "saturated_mixed", "saturated_neg"]),
+                "pattern": rnd.choice(["random", "random", "saturated_pos", "saturated_mixed", "saturated_neg", "bias_dominant"]),
                 "idx": i, "seed": seed})
   return out
 
@@ -122,13 +122,31 @@ def entry_get(e, key):
   return getattr(e, key, None)
 
 
-def check_values(ctx, t, values, sig, what, counter, zero_ok=True):
+def why_not_shifted(t, v):
+  """Membership for a fixed type whose int_bits may exceed bits - sign (negative fractional bits): the
+  scale-adjusted accumulators of auto_po2 kernels.  value = k * 2^(int_bits - (bits - sign))."""
+  step = Fraction(2) ** (t.int_bits - (t.bits - t.signed))
+  k = v / step
+  lo, hi = (-(1 << (t.bits - 1)), (1 << (t.bits - 1)) - 1) if t.signed else (0, (1 << t.bits) - 1)
+  if k > hi:
+    return "above_max"
+  if k < lo:
+    return "below_min"
+  if k.denominator != 1:
+    return "off_grid"
+  return None
+
+
+def check_values(ctx, t, values, sig, what, counter, zero_ok=True, shifted=False):
   from vf.ref import types as ty
   vals = np.unique(np.asarray(values, dtype=np.float64))
   ctx.count(counter, int(vals.size))
   ctx.evals(int(vals.size))
   for v in vals:
-    why = ty.why_not(t, frac(v), zero_ok=zero_ok)
+    why = why_not_shifted(t, frac(v)) if (shifted and t.kind == "fixed") else ty.why_not(t, frac(v), zero_ok=zero_ok)
+    if why == "above_max" and t.kind == "fixed" and not shifted and ty.vmin(t) is not None and frac(v) == -ty.vmin(t):
+      # the all-positive extreme +N*max of a two's-complement range [-2^k, 2^k - lsb]
+      why = "positive_extreme_equals_minus_min"
     if why is not None:
       ctx.violation(dict(sig, kind=what + "_not_representable_in_reported_type", why=why),
                     "%s value %r is not a value of the reported type %s (%s)" % (what, float(v), ty.describe(t), why),
@@ -165,6 +183,8 @@ def run_case(case, ctx):
     k = ws[0]
     if pattern == "random":
       kv = rng.normal(0, 0.8, size=k.shape)
+    elif pattern == "bias_dominant":
+      kv = rng.normal(0, 0.05, size=k.shape)
     elif pattern == "saturated_pos":
       kv = np.full(k.shape, 64.0)
     elif pattern == "saturated_neg":
@@ -173,14 +193,18 @@ def run_case(case, ctx):
       kv = rng.choice([-64.0, 64.0], size=k.shape)
     new = [kv.astype(np.float32)]
     if len(ws) > 1:
-      new.append((rng.normal(0, 1.0, size=ws[1].shape) if pattern == "random" else rng.choice([-64.0, 64.0], size=ws[1].shape)).astype(np.float32))
+      new.append((rng.normal(0, 1.0, size=ws[1].shape) if pattern == "random" else rng.choice([-64.0, 64.0], size=ws[1].shape)).astype(np.float32)
+                 if pattern != "bias_dominant" else rng.choice([-0.5, 0.5, 1.0], size=ws[1].shape).astype(np.float32))
     l.set_weights(new)
   # ---- inputs from the source lattice
   xshape = tuple(spec["input"])
   lat = np.unique(np.asarray(src_q(tf.constant(np.linspace(-8, 8, 4097).astype(np.float32)))))
   xmin, xmax = float(lat.min()), float(lat.max())
-  batches = [rng.choice(lat, size=(6,) + xshape).astype(np.float32), np.full((1,) + xshape, xmax, np.float32), np.full((1,) + xshape, xmin, np.float32)]
-  base = {"pattern": "saturated" if pattern != "random" else "random"}
+  small = lat[np.abs(lat) <= max(0.25, float(np.min(np.abs(lat[lat != 0]))) if np.any(lat != 0) else 0.25)]
+  # the first 4 rows only use lattice points of small magnitude: the estimator is also evaluated on that sub-range
+  batches = [rng.choice(small, size=(4,) + xshape).astype(np.float32), rng.choice(lat, size=(6,) + xshape).astype(np.float32),
+             np.full((1,) + xshape, xmax, np.float32), np.full((1,) + xshape, xmin, np.float32)]
+  base = {"pattern": "saturated" if pattern.startswith("saturated") else "random"}
   # documented flow: export first (eager), then QTools on the already-quantized model
   with contextlib.redirect_stdout(io.StringIO()), contextlib.redirect_stderr(io.StringIO()):
     ok, hw = ctx.call(dict(base, op="model_save_quantized_weights"), qutils.model_save_quantized_weights, model)
@@ -234,7 +258,11 @@ def run_case(case, ctx):
       qs = l.get_quantizers()
       ws = l.get_weights()
       wt = ty.from_reported(entry_get(e, "weight_quantizer"))
-      kq = np.asarray(ws[0])          # already quantized by the export
+      # the tensor the running layer multiplies with: its quantizer applied to the stored (exported) weight;
+      # this is also the call that leaves quantizer.scale in the state QTools read
+      kq = np.asarray(qs[0](tf.constant(ws[0]))) if qs[0] is not None else np.asarray(ws[0])
+      if len(ws) > 1 and qs[1] is not None:
+        ws = [ws[0], np.asarray(qs[1](tf.constant(ws[1])))]
       scale = None
       if fam == "auto_po2":
         scale = np.asarray(qs[0].scale, dtype=np.float64)
@@ -256,7 +284,7 @@ def run_case(case, ctx):
       if np.abs(pre).max() / max(lsb_in * lsb_w, 1e-30) > 2.0 ** 22:
         ctx.skip("beyond_float32_exactness")
         continue
-      okv = check_values(ctx, at, pre, sig, "preactivation", "preactivation_values_checked")
+      okv = check_values(ctx, at, pre, sig, "preactivation", "preactivation_values_checked", shifted=(fam == "auto_po2"))
       # how close did the workload come to the reported range?
       if at.kind == "fixed" and okv:
         top = float(ty.vmax(at))
@@ -269,20 +297,29 @@ def run_case(case, ctx):
   if near:
     ctx.count("near_worst_case_cases")
     ctx.nontrivial(json.dumps(spec, sort_keys=True), pattern)
-  # ---- weight-based estimator
-  ranges = {l.name: (float(ins[l.name].min()), float(ins[l.name].max())) for l in wlayers}
-  with contextlib.redirect_stdout(io.StringIO()):
-    ok, sizes = ctx.call(dict(base, op="analyze_accumulator", layers=",".join(sorted({type(l).__name__ for l in wlayers}))),
-                         estimate.analyze_accumulator, model, ranges)
-  if ok:
-    for l in wlayers:
+  # ---- weight-based estimator: once on all inputs, once on the small-magnitude rows only
+  for tag, rows in (("all", slice(None)), ("small", slice(0, 4))):
+    wl = list(wlayers)
+    ranges = {l.name: (float(ins[l.name][rows].min()), float(ins[l.name][rows].max())) for l in wl}
+    degenerate = [l.name for l in wl if ranges[l.name] == (0.0, 0.0) or
+                  (not np.any(l.get_weights()[0]) and not (l.use_bias and np.any(l.get_weights()[1])))]
+    if degenerate:
+      ctx.skip("estimator_not_evaluated_zero_signal_layer")
+      ctx.observe("analyze_accumulator on a layer with an all-zero kernel or a (0,0) input range takes log2(0)", None)
+      continue
+    with contextlib.redirect_stdout(io.StringIO()):
+      ok, sizes = ctx.call(dict(base, op="analyze_accumulator", layers=",".join(sorted({type(l).__name__ for l in wl}))),
+                           estimate.analyze_accumulator, model, ranges)
+    if not ok:
+      continue
+    for l in wl:
       ctx.count("estimator_layers_checked")
-      m = float(np.abs(outs[l.name]).max())
+      m = float(np.abs(outs[l.name][rows]).max())
       if m > 0 and l.name in sizes and 2.0 ** sizes[l.name] < m * (1 - 1e-6):
-        ws = l.get_weights()
+        rmax = max(abs(ranges[l.name][0]), abs(ranges[l.name][1]))
         ctx.violation({"kind": "estimator_below_observed_output", "layer": type(l).__name__,
-                       "bias": bool(l.use_bias), "input_range_below_one": bool(max(abs(ranges[l.name][0]), abs(ranges[l.name][1])) < 1)},
+                       "bias": bool(l.use_bias), "input_range_below_one": bool(rmax < 1)},
                       "%s: analyze_accumulator = %d bits but |output| reaches %g for inputs in %r" % (l.name, sizes[l.name], m, ranges[l.name]),
-                      {"range": ranges[l.name]})
+                      {"range": ranges[l.name], "rows": tag})
   ctx.sample({"layers": [(l["t"], l.get("fam")) for l in spec["layers"]], "input": spec["input"], "pattern": pattern,
               "source_quantizer": case["src"], "n_inputs": int(x.shape[0])})
